@@ -4,6 +4,7 @@ import (
 	"bytes"
 	"encoding/binary"
 	"fmt"
+	"runtime"
 
 	"github.com/cloudflare/pat-go/quicwire"
 
@@ -14,10 +15,11 @@ import (
 // C19 — QUIC varints and length-prefixed byte strings are exact and bounds-safe.
 type c19 struct{ base }
 
-func init() { core.Register(c19{base{"C19", "exploration", 20000, 800000}}) }
+func init() { core.Register(c19{base{"C19", "exploration", 8000, 300000}}) }
 
 func (c19) Describe() core.Description {
 	return core.Description{
+		Isolated:  true,
 		Technique: "deterministic simulation of a framed byte stream (the style quicwire was written for) delivered in plan-chosen segments down to one byte at a time, with corrupted length prefixes and truncated ends; the receiver parses incrementally with the real consumers while an own RFC 9000 decoder runs beside it as reference model on every prefix; append/size checked against the four class limits; arena guards and a second run under other spare-capacity contents detect dependence on bytes beyond the slice",
 		Rule: "one evaluation = one consumer or appender call compared with the reference; per run a stream of 5-40 items (varint, varint-prefixed bytes, uint8-prefixed bytes, uint32, uint64) with boundary-biased values ({0,63,64,16383,16384,2^30-1,2^30,2^62-1} +-1 and uniform per class), one segmentation (whole / byte-at-a-time / random cuts), optional length-prefix corruption up to 2^62-1 and optional truncation; " +
 			"non-trivial = a consumer call on a proper prefix of an item (short read) or on a corrupted length; distinct = distinct (item kind, size class, available-bytes class, verdict)",
@@ -260,7 +262,18 @@ func (c c19) Execute(p *core.Plan) *core.Result {
 			for round := 0; round < 2; round++ {
 				ar := arena.New(arena.Layout{Spare: spare, Poison: byte(0x11 + 0xCC*round), Guard: 0x5C})
 				in := ar.Put("rx", avail)
-				n, val := consume(ops[next], in)
+				var ms0, ms1 runtime.MemStats
+				runtime.ReadMemStats(&ms0)
+				var n int
+				var val string
+				if pv := safely(func() { n, val = consume(ops[next], in) }); pv != nil {
+					res.Violate("C19/panic/"+ops[next], fmt.Sprintf("%s panicked on %d available bytes (first byte %#x): %v", ops[next], len(avail), firstByte(avail), pv), -1)
+					n, val = -97, "panic"
+				}
+				runtime.ReadMemStats(&ms1)
+				if d := ms1.TotalAlloc - ms0.TotalAlloc; d > 8<<20+1024*uint64(len(avail)) {
+					res.Violate("C19/allocation/"+ops[next], fmt.Sprintf("%s allocated %d bytes on %d available bytes (declared length beyond the input)", ops[next], d, len(avail)), -1)
+				}
 				ns[round], vals[round] = n, val
 				if d := ar.Audit(); len(d) > 0 {
 					res.Violate("C19/consumer-wrote", fmt.Sprintf("%s: %v", ops[next], d), -1)
